@@ -240,7 +240,7 @@ def _sum(ex, st, pos, kw, node, star):
         for x in v.items:
             (_, acc), = [(c, r) for c, r in ops.binop(st, "+", acc, x) if c is None]
         return [(st, acc)]
-    c = ex.contracts.get(ex.fn_stack[-1].key)
+    c = ex.current_contract()
     o = call_ordinal(ex, node, "sum")
     spec = c.sums.get(o) if c else None
     if spec is None:
